@@ -100,6 +100,14 @@ class StrLit:
     __slots__ = ('b',)
     def __init__(s, b): s.b = b
     def __repr__(s): return 'StrLit(%r)' % s.b
+class StrSel:
+    """one of finitely many string literals, selected by conditions: [(cond, bytes)]; exactly one cond holds"""
+    __slots__ = ('alts',)
+    def __init__(s, alts): s.alts = alts
+    def __repr__(s): return 'StrSel(%s)' % [b for _, b in s.alts]
+def _str_alts(v):
+    if isinstance(v, StrLit): return [(T, v.b)]
+    return v.alts
 class ArrIter:
     __slots__ = ('arr', 'idx', 'byref')
     def __init__(s, arr, idx, byref=True): s.arr = arr; s.idx = idx; s.byref = byref
@@ -234,10 +242,17 @@ def merge(c, a, b):
         if a.act == b.act and a.local == b.local and a.proj == b.proj: return a
         raise MergeFail('distinct refs')
     if isinstance(a, StrLit) and isinstance(b, StrLit) and a.b == b.b: return a
+    if isinstance(a, (StrLit, StrSel)) and isinstance(b, (StrLit, StrSel)):
+        if c.c is True: return a
+        if c.c is False: return b
+        byb = {}
+        for cnd, bs in _str_alts(a): byb[bs] = zor(byb.get(bs, F), zand(c.t, cnd))
+        for cnd, bs in _str_alts(b): byb[bs] = zor(byb.get(bs, F), zand(znot(c.t), cnd))
+        return StrSel([(cnd, bs) for bs, cnd in byb.items()])
     if isinstance(a, ArrIter) and isinstance(b, ArrIter) and a.arr is b.arr and a.idx == b.idx: return a
     if isinstance(a, Closure) and isinstance(b, Closure) and a.defname == b.defname:
         return Closure(a.defname, [merge(c, x, y) for x, y in zip(a.caps, b.caps)])
-    if isinstance(a, (Opaque, StrLit)) and isinstance(b, (Opaque, StrLit)): return Opaque('merged')
+    if isinstance(a, Opaque) or isinstance(b, Opaque): return Opaque('merged')    # reads of it fail closed where a value is needed
     if hasattr(a, 'merge_with'):
         r = a.merge_with(c, b)
         if r is not None: return r
@@ -426,7 +441,7 @@ class Exec:
         for p in proj:
             if p[0] == 'deref':
                 if not isinstance(v, Ref):
-                    if isinstance(v, (StrLit, Opaque)) or hasattr(v, 'is_strlike'): continue   # &str / &T modelled by value
+                    if isinstance(v, (StrLit, StrSel, Opaque)) or hasattr(v, 'is_strlike'): continue   # &str / &T modelled by value
                     if isinstance(v, (Agg, En, IV, BV)): continue      # references to rvalue temporaries held by value
                     raise Inconclusive('deref of %r' % (v,))
                 fr = self.frame_of(v.act)
@@ -1135,7 +1150,8 @@ class Exec:
             if r is not None: return r
             raise Inconclusive('unmodelled callee: ' + callee)
         last = name.split('::')[-1]
-        ab = self.abstractions.get(last) if not self.in_contract else None
+        ab = self.abstractions.get(last)
+        if ab is not None and self.in_contract and not getattr(ab, 'always', False): ab = None
         if ab is not None and ab.applies(name):
             return ab.apply(self, name, args, guard, site)
         return self.call_body(self.fns[name], args, guard)
